@@ -32,6 +32,23 @@ def check_pdu(p):
         true(devs, f"dec.eq.{tag}", bool(y == x) and bool(x == y), "unpack(pack(x)) != x")
         eq(devs, f"dec.repack.{tag}", bytes(y.pack()), want)
         eq(devs, f"dec.packet_len.{tag}", y.packet_len, len(want))
+    devs.extend(M.pdu_histories(p, want, wo, cls.unpack))
+    if kind == "ack":
+        # an ACK rebuilt from what a decoder exposes (plain integers equal to the enum values) is the same ACK
+        from spacepackets.cfdp import pdu as P
+
+        y = cls.unpack(want)
+        x2 = P.AckPdu(M.build_conf(p["conf"]), y.directive_code_of_acked_pdu, y.condition_code_of_acked_pdu, y.transaction_status)
+        eq(devs, "rebuilt_from_decoded_fields.bytes", bytes(x2.pack()), want)
+        eq(devs, "rebuilt_from_decoded_fields.fields", M.obs_pdu(x2, "ack"), wo)
+    if kind in ("eof", "finished"):
+        # acknowledging a decoded EOF / Finished PDU through the directive code that PDU reports
+        from spacepackets.cfdp import pdu as P
+
+        y = cls.unpack(want)
+        q = {"kind": "ack", "conf": p["conf"], "acked": R.EOF if kind == "eof" else R.FINISHED, "cc": p["cc"], "status": 2}
+        a = P.AckPdu(M.build_conf(p["conf"]), y.directive_type, y.condition_code, P.TransactionStatus(2))
+        eq(devs, "ack_of_decoded_pdu.bytes", bytes(a.pack()), M.ref_pdu(q))
     return devs
 
 
